@@ -31,6 +31,47 @@ Proof.
   - destruct (m <=? blen rem); [apply Hstep; reflexivity|reflexivity].
 Qed.
 
+Lemma i_read_shrinks : forall blk size buf rem t d buf' rem' t',
+    0 < blk -> body_read_blk i_rd i_fuel blk size (buf, (rem, t)) = (inl d, (buf', (rem', t'))) ->
+    t' = t /\ d ++ buf' ++ rem' = buf ++ rem.
+Proof.
+  intros blk size buf rem t d buf' rem' t' Hb H. unfold body_read_blk in H. cbn [fst snd] in H.
+  destruct (getsize size =? 0); [injection H as <- <- <- <-; auto|].
+  destruct (getsize size <? blen buf).
+  - injection H as <- <- <- <-. split; [reflexivity|]. rewrite app_assoc, takeN_dropN. reflexivity.
+  - assert (Hgen : forall fuel sz b r bb rr tt err, body_fill i_rd blk fuel sz b (r, t) = ((bb, (rr, tt)), err) -> tt = t /\ bb ++ rr = b ++ r).
+    { induction fuel as [|fuel IH]; intros sz b r bb rr tt err Hf; cbn [body_fill] in Hf.
+      - injection Hf as <- <- <- <-. auto.
+      - destruct (sz <=? blen b); [injection Hf as <- <- <- <-; auto|].
+        unfold i_rd in Hf. cbn [fst snd] in Hf.
+        assert (Hs : forall dd, dd = takeN blk r ->
+                 match dd with [] => ((b, (dropN blk r, t)), None) | _ => body_fill i_rd blk fuel sz (b ++ dd) (dropN blk r, t) end = ((bb, (rr, tt)), err) ->
+                 tt = t /\ bb ++ rr = b ++ r).
+        { intros dd Hdd Hm. destruct dd as [|x dd].
+          - injection Hm as <- <- <- <-. split; [reflexivity|]. symmetry in Hdd. apply takeN_nil_iff in Hdd; [|exact Hb]. subst r. rewrite dropN_nil. reflexivity.
+          - apply IH in Hm as [-> Hm]. split; [reflexivity|]. rewrite Hm, <- app_assoc, Hdd, takeN_dropN. reflexivity. }
+        destruct t as [a tr|e].
+        + eapply Hs; [reflexivity|exact Hf].
+        + destruct (blk <=? blen r); [eapply Hs; [reflexivity|exact Hf]|]. injection Hf as <- <- <- <-. auto. }
+    destruct (body_fill i_rd blk (i_fuel (rem, t)) (getsize size) buf (rem, t)) as [[bb [rr tt]] [e|]] eqn:Ef; [discriminate H|].
+    injection H as <- <- <- <-. apply Hgen in Ef as [-> Ef]. split; [reflexivity|].
+    rewrite app_assoc, takeN_dropN. exact Ef.
+Qed.
+
+Lemma i_drain_fuel : forall f1 f2 buf rem t,
+    (length (buf ++ rem) < f1)%nat -> (length (buf ++ rem) < f2)%nat ->
+    drain i_rd i_fuel f1 (buf, (rem, t)) = drain i_rd i_fuel f2 (buf, (rem, t)).
+Proof.
+  induction f1 as [|f1 IH]; intros f2 buf rem t H1 H2; [lia|]. destruct f2 as [|f2]; [lia|]. cbn [drain].
+  unfold body_read.
+  destruct (body_read_blk i_rd i_fuel 1024 (Some 8192%Z) (buf, (rem, t))) as [[d|e] [b' [r' t']]] eqn:E; [|reflexivity].
+  destruct d as [|x d]; [reflexivity|].
+  destruct (i_read_shrinks 1024 _ _ _ _ _ _ _ _ ltac:(lia) E) as [-> Hs].
+  assert (length (b' ++ r') < length (buf ++ rem))%nat.
+  { rewrite <- Hs. rewrite (app_length (x :: d)). cbn [length]. lia. }
+  apply IH; lia.
+Qed.
+
 Section Sim.
   Variable S1 : Type.
   Variable rd1 : N -> S1 -> (bytes + perr) * S1.
@@ -176,5 +217,61 @@ Section Sim.
     destruct (body_read_blk rd1 f1 1024 (Some 8192%Z) (b, s)) as [[d|e] [b1 s1]]; cbn [res_rel] in H.
     - destruct H as [Hi ->]. destruct d as [|x d]; [cbn; auto|]. apply IH. exact Hi.
     - destruct (body_read_blk i_rd i_fuel 1024 (Some 8192%Z) (b, alpha s)) as [r2 x]. cbn [fst] in H. subst r2. reflexivity.
+  Qed.
+
+  (* a read that returned b"" leaves the reader in a state where its end has been observed *)
+  Variable Final : S1 -> Prop.
+  Hypothesis rd_nil_final : forall n s s', Inv s -> 0 < n -> rd1 n s = (inl [], s') -> Final s'.
+
+  Lemma fill_nil_final : forall fuel blk size s b' s',
+      Inv s -> 0 < blk -> 0 < size ->
+      body_fill rd1 blk fuel size [] s = ((b', s'), None) -> b' = [] -> Final s'.
+  Proof.
+    intros fuel blk size s b' s' Hinv Hb Hs H Hnil. destruct fuel as [|fuel]; cbn [body_fill] in H; [discriminate|].
+    replace (size <=? blen []) with false in H by (symmetry; apply N.leb_gt; cbn; lia).
+    destruct (rd1 blk s) as [[d|e] s1] eqn:Er; [|discriminate].
+    destruct d as [|x d].
+    - injection H as <- <-. exact (rd_nil_final blk s s1 Hinv Hb Er).
+    - exfalso. subst b'.
+      assert (Hgrow : forall f sz b s0 bb ss err, body_fill rd1 blk f sz b s0 = ((bb, ss), err) -> (length b <= length bb)%nat).
+      { induction f as [|f IHf]; intros sz b s0 bb ss err Hf; cbn [body_fill] in Hf; [injection Hf as <- <- <-; lia|].
+        destruct (sz <=? blen b); [injection Hf as <- <- <-; lia|].
+        destruct (rd1 blk s0) as [[dd|ee] s2]; [|injection Hf as <- <- <-; lia].
+        destruct dd; [injection Hf as <- <- <-; lia|]. apply IHf in Hf. rewrite app_length in Hf. lia. }
+      apply Hgrow in H. cbn in H. lia.
+  Qed.
+
+  Lemma read_nil_final : forall blk size b s b' s',
+      Inv s -> 0 < blk -> 0 < getsize size ->
+      body_read_blk rd1 f1 blk size (b, s) = (inl [], (b', s')) -> Final s'.
+  Proof.
+    intros blk size b s b' s' Hinv Hb Hs H. unfold body_read_blk in H. cbn [fst snd] in H.
+    replace (getsize size =? 0) with false in H by (symmetry; apply N.eqb_neq; lia).
+    destruct (getsize size <? blen b) eqn:El.
+    - apply N.ltb_lt in El. exfalso. injection H as H _ _. apply (f_equal blen) in H. rewrite blen_takeN in H. change (blen []) with 0 in H. lia.
+    - apply N.ltb_ge in El.
+      destruct (body_fill rd1 blk (f1 s) (getsize size) b s) as [[bb ss] [e|]] eqn:Ef; [discriminate|].
+      injection H as H <- <-.
+      assert (Hbb : bb = []).
+      { apply (f_equal blen) in H. rewrite blen_takeN in H. change (blen []) with 0 in H. apply blen_zero. lia. }
+      assert (Hb0 : b = []).
+      { assert (Hgrow : forall f sz b0 s0 bb0 ss0 err, body_fill rd1 blk f sz b0 s0 = ((bb0, ss0), err) -> (length b0 <= length bb0)%nat).
+        { induction f as [|f IHf]; intros sz b0 s0 bb0 ss0 err Hf; cbn [body_fill] in Hf; [injection Hf as <- <- <-; lia|].
+          destruct (sz <=? blen b0); [injection Hf as <- <- <-; lia|].
+          destruct (rd1 blk s0) as [[dd|ee] s2]; [|injection Hf as <- <- <-; lia].
+          destruct dd; [injection Hf as <- <- <-; lia|]. apply IHf in Hf. rewrite app_length in Hf. lia. }
+        apply Hgrow in Ef. subst bb. destruct b; [reflexivity|cbn in Ef; lia]. }
+      subst b. eapply (fill_nil_final (f1 s) blk (getsize size) s bb); [exact Hinv|exact Hb|exact Hs|exact Ef|exact Hbb].
+  Qed.
+
+  Lemma drain_final : forall fuel b s b' s', Inv s ->
+      drain rd1 f1 fuel (b, s) = ((b', s'), None) -> Final s'.
+  Proof.
+    induction fuel as [|fuel IH]; intros b s b' s' Hinv H; cbn [drain] in H; [discriminate|].
+    pose proof (read_sim 1024 (Some 8192%Z) b s Hinv ltac:(lia)) as Hr. unfold body_read in H.
+    destruct (body_read_blk rd1 f1 1024 (Some 8192%Z) (b, s)) as [[d|e] [b1 s1]] eqn:E; [|discriminate].
+    cbn [res_rel] in Hr. destruct Hr as [Hi _]. destruct d as [|x d].
+    - injection H as <- <-. eapply read_nil_final; [exact Hinv| | |exact E]; cbn; lia.
+    - eapply IH; eassumption.
   Qed.
 End Sim.
